@@ -29,7 +29,10 @@
 (* queue at all (raw UNIX loops), 0 for accept() / from_socket();           *)
 (* protoA / protoB = 1 for the asyncio protocol-based SocketStream (guard   *)
 (* entered synchronously by the call), 0 for the raw-socket loops (guard    *)
-(* entered after an initial checkpoint).                                    *)
+(* entered after an initial checkpoint); deferA / deferB = 1 when closing   *)
+(* the socket object is deferred by the event loop while it is registered  *)
+(* with add_reader / add_writer (raw UNIX loops on uvloop): known finding   *)
+(* F16, clause ClosedUnixStreamStaysOpenOnUvloop.                           *)
 (*                                                                         *)
 (* Rule P-permissive.  What is deliberately NOT demanded: anything about a  *)
 (* connection that may have been reset by the kernel (a side closed while   *)
@@ -59,11 +62,15 @@ SockP0(par) ==
    \* leak[s]: side s may be reading from its transport while nobody receives (known finding F10):
    \* never paused since creation, or a receive was cancelled since the last one that certainly waited
    leak     |-> [s \in SSides |-> IF s = "A" THEN par.pausedA = 0 ELSE par.pausedB = 0],
+   \* stuckclose[s]: known finding F16 applies to side s: its socket is not really closed by aclose()
+   \* (raw UNIX loops on uvloop, a receive AND a send were in progress when aclose() was called)
+   stuckclose |-> [s \in SSides |-> FALSE],
    ops      |-> {},      \* calls in progress: [s, op, t, arg, settled, closed0, must, hold, certain]
    creq     |-> {}]      \* <<s, t>> with a cancellation requested
 
 SProto(p, s) == IF s = "A" THEN p.par.protoA = 1 ELSE p.par.protoB = 1
 SBound(p, s) == IF s = "A" THEN p.par.boundA ELSE p.par.boundB
+SDefer(p, s) == IF s = "A" THEN p.par.deferA = 1 ELSE p.par.deferB = 1
 SOps(p, s, op) == {o \in p.ops : o.s = s /\ o.op = op}
 SFind(p, s, op, t) == CHOOSE o \in p.ops : o.s = s /\ o.op = op /\ o.t = t
 SHas(p, s, op, t) == \E o \in p.ops : o.s = s /\ o.op = op /\ o.t = t
@@ -107,8 +114,11 @@ SSendEnd(p, e) ==
   LET o == SFind(p, e.s, "send", e.t)
       p1 == SDrop(p, o)
       peerGone == p.closed[SPeer(e.s)] \/ p.rst
+      sc == p.stuckclose[e.s]
+      closedOk == o.closed0 => e.res \in {"closed", "busy", "cancelled", "timeout"}
       common == [BusyResource |-> SBusyDue(p, o) => e.res \in {"busy", "cancelled"},
-                 ClosedSendRaises |-> o.closed0 => e.res \in {"closed", "busy", "cancelled", "timeout"}]
+                 ClosedSendRaises |-> sc \/ closedOk,
+                 ClosedUnixStreamStaysOpenOnUvloop |-> ~sc \/ closedOk]
   IN
   CASE e.res = "ok" ->
          \* a send that was in progress when its own side was closed may report success although
@@ -141,16 +151,20 @@ SSendEnd(p, e) ==
          \* the run drains every stream to its end before giving up: a send still blocked then is stuck
          [p |-> [p1 EXCEPT !.cut[e.s] = TRUE],
           bad |-> SNames(common) \cup
-                  SNames([SendNeverBlocksWhenClosed |-> ~p.closed[e.s],
-                          NoDeadlock |-> p.closed[e.s]])]
+                  SNames([SendNeverBlocksWhenClosed |-> sc \/ ~p.closed[e.s],
+                          NoDeadlock |-> p.closed[e.s] \/ p.stuckclose[SPeer(e.s)],
+                          ClosedUnixStreamStaysOpenOnUvloop |-> ~sc /\ ~p.stuckclose[SPeer(e.s)]])]
     [] OTHER -> [p |-> p1, bad |-> {"UnexpectedSendOutcome"}]
 
 SRecvEnd(p, e) ==
   LET o == SFind(p, e.s, "recv", e.t)
       w == SPeer(e.s)                      \* the writer of the stream being read
       p1 == SDrop(p, o)
+      sc == p.stuckclose[e.s]
+      closedOk == o.closed0 => e.res \in {"ok", "closed", "busy", "cancelled", "timeout"}
       common == [BusyResource |-> SBusyDue(p, o) => e.res \in {"busy", "cancelled"},
-                 ClosedReceiveRules |-> o.closed0 => e.res \in {"ok", "closed", "busy", "cancelled", "timeout"}]
+                 ClosedReceiveRules |-> sc \/ closedOk,
+                 ClosedUnixStreamStaysOpenOnUvloop |-> ~sc \/ closedOk]
   IN
   CASE e.res = "ok" ->
          [p |-> [p1 EXCEPT !.received[w] = IF p.undef[w] \/ (e.off = p.received[w] /\ e.match = 1)
@@ -182,8 +196,9 @@ SRecvEnd(p, e) ==
          \* every stream is finished by its writer (EOF or close) before the run gives up
          [p |-> p1,
           bad |-> SNames(common) \cup
-                  SNames([ReceiveNeverBlocksWhenClosed |-> ~p.closed[e.s],
-                          NoDeadlock |-> p.closed[e.s]])]
+                  SNames([ReceiveNeverBlocksWhenClosed |-> sc \/ ~p.closed[e.s],
+                          NoDeadlock |-> p.closed[e.s] \/ p.stuckclose[SPeer(e.s)],
+                          ClosedUnixStreamStaysOpenOnUvloop |-> ~sc /\ ~p.stuckclose[SPeer(e.s)]])]
     [] OTHER -> [p |-> p1, bad |-> {"UnexpectedReceiveOutcome"}]
 
 SockApply0(p, e) ==
@@ -196,7 +211,9 @@ SockApply0(p, e) ==
     [] e.ev = "eof" -> [p |-> [p EXCEPT !.eofsent[e.s] = TRUE], bad |-> {}]
     [] e.ev = "close" ->
          [p |-> [p EXCEPT !.closed[e.s] = TRUE, !.eofsent[e.s] = TRUE,
-                          !.rst = @ \/ SRstAtClose(p, e.s)],
+                          !.rst = @ \/ SRstAtClose(p, e.s),
+                          !.stuckclose[e.s] = @ \/ (SDefer(p, e.s) /\ ~p.closed[e.s] /\ SOps(p, e.s, "recv") # {}
+                                                                      /\ SOps(p, e.s, "send") # {})],
           bad |-> {}]
     [] e.ev = "creq" -> [p |-> [p EXCEPT !.creq = @ \cup {<<e.s, e.t>>}], bad |-> {}]
     [] e.ev = "settle" ->
